@@ -21,7 +21,8 @@ Inductive rval :=
 | VStr (s : string)
 | VHash (h : list (string * string))
 | VList (l : list string)
-| VStream (es : list sentry) (last : sid).
+| VStream (es : list sentry) (last : sid)
+| VZSet (z : list (string * Z)).        (* member -> score; integer scores only *)
 
 Record rkey := mkKey { k_val : rval; k_exp : option N }.         (* absolute ms *)
 
@@ -307,11 +308,17 @@ Definition get_stream (st : rstate) (k : string) : option (option (list sentry *
 Definition trim_maxlen (es : list sentry) (n : Z) : list sentry :=
   skipn (List.length es - Z.to_nat n) es.
 
+(* MAXLEN ~ n: approximate trimming only evicts whole macro nodes; with the default
+   stream-node-max-entries = 100 (the byte limit of a node is not modelled) the oldest
+   entries are dropped in blocks of 100 while at least n entries remain. *)
+Definition trim_approx (es : list sentry) (n : Z) : list sentry :=
+  skipn (((List.length es - Z.to_nat n) / 100) * 100) es.
+
 Definition badid := RErr "ERR Invalid stream ID specified as stream command argument".
 
 (* XADD key [MAXLEN n] id f v [f v ...]   (id explicit or "*") *)
 Definition cmd_xadd (st : rstate) (args : list string) : rstate * reply :=
-  let go (k : string) (maxlen : option Z) (ids : string) (fv : list string) : rstate * reply :=
+  let go (k : string) (maxlen : option (bool * Z)) (ids : string) (fv : list string) : rstate * reply :=
     if (Nat.eqb (List.length fv) 0 || Nat.odd (List.length fv))%bool then (st, arity "xadd") else
     match get_stream st k with
     | None => (st, wrongtype)
@@ -330,17 +337,30 @@ Definition cmd_xadd (st : rstate) (args : list string) : rstate * reply :=
             then (st, RErr "ERR The ID specified in XADD is equal or smaller than the target stream top item")
             else
               let es' := (es ++ [mkEntry id fv])%list in
-              let es'' := match maxlen with Some n => trim_maxlen es' n | None => es' end in
+              let es'' := match maxlen with
+                          | Some (false, n) => trim_maxlen es' n
+                          | Some (true, n) => trim_approx es' n
+                          | None => es'
+                          end in
               (setval st k (VStream es'' id), RBulk (sid_str id))
         end
     end in
   match args with
   | k :: m :: n :: ids :: fv =>
       if String.eqb (lower m) "maxlen" then
-        if (String.eqb n "=" || String.eqb n "~")%bool then (st, unsupported "XADD MAXLEN with = or ~")
+        if (String.eqb n "=" || String.eqb n "~")%bool then
+          match ids :: fv with
+          | n2 :: ids2 :: fv2 =>
+              match parse_ll n2 with
+              | Some n' => if (n' <? 0)%Z then (st, RErr "ERR The MAXLEN argument must be >= 0.")
+                           else go k (Some (String.eqb n "~", n')) ids2 fv2
+              | None => (st, notint)
+              end
+          | _ => (st, arity "xadd")
+          end
         else match parse_ll n with
              | Some n' => if (n' <? 0)%Z then (st, RErr "ERR The MAXLEN argument must be >= 0.")
-                          else go k (Some n') ids fv
+                          else go k (Some (false, n')) ids fv
              | None => (st, notint)
              end
       else if existsb (String.eqb (lower m)) ["minid"; "nomkstream"; "limit"] then (st, unsupported "XADD option")
@@ -397,6 +417,216 @@ Definition cmd_xrange_gen (rev_ : bool) (st : rstate) (args : list string) : rst
   | _ => (st, arity name)
   end.
 
+(* ---------- more hash / generic commands (map broker scripts) ---------- *)
+Definition cmd_pexpire (st : rstate) (args : list string) : rstate * reply :=
+  match args with
+  | [k; ms] =>
+      match parse_ll ms with
+      | None => (st, notint)
+      | Some s =>
+          match getk st k with
+          | None => (st, RInt 0)
+          | Some rk =>
+              if (s <=? 0)%Z then (delk st k, RInt 1)
+              else (putk st k (mkKey (k_val rk) (Some (now st + Z.to_N s)%N)), RInt 1)
+          end
+      end
+  | _ :: _ :: _ :: _ => (st, unsupported "PEXPIRE with options")
+  | _ => (st, arity "pexpire")
+  end.
+
+Definition cmd_exists (st : rstate) (args : list string) : rstate * reply :=
+  match args with
+  | [] => (st, arity "exists")
+  | _ => (st, RInt (Z.of_nat (List.length (filter (fun k => match getk st k with Some _ => true | None => false end) args))))
+  end.
+
+Definition hash_or_empty (oh : option (list (string * string))) := match oh with Some h => h | None => [] end.
+
+Definition cmd_hlen (st : rstate) (args : list string) : rstate * reply :=
+  match args with
+  | [k] => match get_hash st k with
+           | None => (st, wrongtype)
+           | Some oh => (st, RInt (Z.of_nat (List.length (hash_or_empty oh))))
+           end
+  | _ => (st, arity "hlen")
+  end.
+
+Definition cmd_hexists (st : rstate) (args : list string) : rstate * reply :=
+  match args with
+  | [k; f] => match get_hash st k with
+              | None => (st, wrongtype)
+              | Some oh => (st, RInt (match sfind f (hash_or_empty oh) with Some _ => 1 | None => 0 end))
+              end
+  | _ => (st, arity "hexists")
+  end.
+
+Definition cmd_hdel (st : rstate) (args : list string) : rstate * reply :=
+  match args with
+  | k :: (_ :: _) as fs =>
+      match get_hash st k with
+      | None => (st, wrongtype)
+      | Some None => (st, RInt 0)
+      | Some (Some h) =>
+          let h' := fold_left (fun acc f => sdel f acc) fs h in
+          let n := Z.of_nat (List.length h - List.length h') in
+          match h' with
+          | [] => (delk st k, RInt n)                  (* an emptied hash key is removed *)
+          | _ => (setval st k (VHash h'), RInt n)
+          end
+      end
+  | _ => (st, arity "hdel")
+  end.
+
+Fixpoint flat_kv (h : list (string * string)) : list reply :=
+  match h with [] => [] | (f, v) :: r => RBulk f :: RBulk v :: flat_kv r end.
+
+Definition cmd_hgetall (st : rstate) (args : list string) : rstate * reply :=
+  match args with
+  | [k] => match get_hash st k with
+           | None => (st, wrongtype)
+           | Some oh => (st, RArr (flat_kv (hash_or_empty oh)))
+           end
+  | _ => (st, arity "hgetall")
+  end.
+
+(* HSCAN key cursor [COUNT n]: modelled as the behaviour of a small (listpack encoded) hash:
+   everything is returned by the first call with cursor "0"; any other cursor is not produced
+   by this model and answers "unsupported". *)
+Definition cmd_hscan (st : rstate) (args : list string) : rstate * reply :=
+  match args with
+  | k :: cur :: rest =>
+      if negb (String.eqb cur "0") then (st, unsupported "HSCAN with a non-zero cursor") else
+      match rest with
+      | [] | [_; _] =>
+          match get_hash st k with
+          | None => (st, wrongtype)
+          | Some oh => (st, RArr [RBulk "0"; RArr (flat_kv (hash_or_empty oh))])
+          end
+      | _ => (st, RErr "ERR syntax error")
+      end
+  | _ => (st, arity "hscan")
+  end.
+
+(* ---------- sorted sets (integer scores) ---------- *)
+Definition get_zset (st : rstate) (k : string) : option (option (list (string * Z))) :=
+  match getk st k with
+  | None => Some None
+  | Some rk => match k_val rk with VZSet z => Some (Some z) | _ => None end
+  end.
+Definition zset_or_empty (oz : option (list (string * Z))) := match oz with Some z => z | None => [] end.
+
+(* Redis orders members by (score, member bytes) *)
+Fixpoint str_ltb (a b : string) : bool :=
+  match a, b with
+  | _, EmptyString => false
+  | EmptyString, String _ _ => true
+  | String x a', String y b' =>
+      let nx := nat_of_ascii x in let ny := nat_of_ascii y in
+      if Nat.ltb nx ny then true else if Nat.ltb ny nx then false else str_ltb a' b'
+  end.
+Definition zle (a b : string * Z) : bool :=
+  ((snd a <? snd b)%Z || ((snd a =? snd b)%Z && negb (str_ltb (fst b) (fst a))))%bool.
+Fixpoint zinsert (x : string * Z) (l : list (string * Z)) : list (string * Z) :=
+  match l with
+  | [] => [x]
+  | y :: r => if zle x y then x :: l else y :: zinsert x r
+  end.
+Definition zsorted (z : list (string * Z)) : list (string * Z) := fold_right zinsert [] z.
+
+(* scores: canonical decimal integers only *)
+Definition parse_score (s : string) : option Z := parse_ll s.
+
+Fixpoint zadd_pairs (z : list (string * Z)) (sm : list string) (added : Z) : option (option (list (string * Z) * Z)) :=
+  match sm with                              (* None: syntax; Some None: unsupported score *)
+  | [] => Some (Some (z, added))
+  | sc :: m :: r =>
+      match parse_score sc with
+      | None => Some None
+      | Some v => zadd_pairs (sput m v z) r (match sfind m z with Some _ => added | None => (added + 1)%Z end)
+      end
+  | _ => None
+  end.
+
+Definition cmd_zadd (st : rstate) (args : list string) : rstate * reply :=
+  match args with
+  | k :: (_ :: _ :: _) as sm =>
+      match get_zset st k with
+      | None => (st, wrongtype)
+      | Some oz =>
+          match zadd_pairs (zset_or_empty oz) sm 0 with
+          | Some (Some (z', n)) => (setval st k (VZSet z'), RInt n)
+          | Some None => (st, unsupported "ZADD options or non-integer score")
+          | None => (st, RErr "ERR syntax error")
+          end
+      end
+  | _ => (st, arity "zadd")
+  end.
+
+Definition cmd_zrem (st : rstate) (args : list string) : rstate * reply :=
+  match args with
+  | k :: (_ :: _) as ms =>
+      match get_zset st k with
+      | None => (st, wrongtype)
+      | Some None => (st, RInt 0)
+      | Some (Some z) =>
+          let z' := fold_left (fun acc m => sdel m acc) ms z in
+          let n := Z.of_nat (List.length z - List.length z') in
+          match z' with
+          | [] => (delk st k, RInt n)
+          | _ => (setval st k (VZSet z'), RInt n)
+          end
+      end
+  | _ => (st, arity "zrem")
+  end.
+
+Definition cmd_zscore (st : rstate) (args : list string) : rstate * reply :=
+  match args with
+  | [k; m] => match get_zset st k with
+              | None => (st, wrongtype)
+              | Some oz => (st, match sfind m (zset_or_empty oz) with Some v => RBulk (zdec v) | None => RNil end)
+              end
+  | _ => (st, arity "zscore")
+  end.
+
+Definition cmd_zcard (st : rstate) (args : list string) : rstate * reply :=
+  match args with
+  | [k] => match get_zset st k with
+           | None => (st, wrongtype)
+           | Some oz => (st, RInt (Z.of_nat (List.length (zset_or_empty oz))))
+           end
+  | _ => (st, arity "zcard")
+  end.
+
+Fixpoint zreply (withscores : bool) (l : list (string * Z)) : list reply :=
+  match l with
+  | [] => []
+  | (m, v) :: r => if withscores then RBulk m :: RBulk (zdec v) :: zreply withscores r
+                   else RBulk m :: zreply withscores r
+  end.
+
+(* ZRANGE / ZREVRANGE key start stop [WITHSCORES]  (rank ranges only) *)
+Definition cmd_zrange_gen (rev_ : bool) (st : rstate) (args : list string) : rstate * reply :=
+  match args with
+  | k :: a :: b :: rest =>
+      let ws := match rest with [w] => if String.eqb (lower w) "withscores" then Some true else None
+                              | [] => Some false | _ => None end in
+      match ws, parse_ll a, parse_ll b with
+      | None, _, _ => (st, unsupported "ZRANGE options")
+      | Some w, Some a, Some b =>
+          match get_zset st k with
+          | None => (st, wrongtype)
+          | Some oz =>
+              let l := zsorted (zset_or_empty oz) in
+              let l := if rev_ then rev l else l in
+              let '(s, c) := norm_range (Z.of_nat (List.length l)) a b in
+              (st, RArr (zreply w (slice l s c)))
+          end
+      | _, _, _ => (st, notint)
+      end
+  | _ => (st, arity (if rev_ then "zrevrange" else "zrange"))
+  end.
+
 (* ---------- dispatch (what redis.call / a client connection can reach) ---------- *)
 Definition redis_call (st : rstate) (argv : list string) : rstate * reply :=
   match argv with
@@ -418,5 +648,18 @@ Definition redis_call (st : rstate) (argv : list string) : rstate * reply :=
       else if String.eqb c "xadd" then cmd_xadd st args
       else if String.eqb c "xrange" then cmd_xrange_gen false st args
       else if String.eqb c "xrevrange" then cmd_xrange_gen true st args
+      else if String.eqb c "pexpire" then cmd_pexpire st args
+      else if String.eqb c "exists" then cmd_exists st args
+      else if String.eqb c "hlen" then cmd_hlen st args
+      else if String.eqb c "hexists" then cmd_hexists st args
+      else if String.eqb c "hdel" then cmd_hdel st args
+      else if String.eqb c "hgetall" then cmd_hgetall st args
+      else if String.eqb c "hscan" then cmd_hscan st args
+      else if String.eqb c "zadd" then cmd_zadd st args
+      else if String.eqb c "zrem" then cmd_zrem st args
+      else if String.eqb c "zscore" then cmd_zscore st args
+      else if String.eqb c "zcard" then cmd_zcard st args
+      else if String.eqb c "zrange" then cmd_zrange_gen false st args
+      else if String.eqb c "zrevrange" then cmd_zrange_gen true st args
       else (st, RErr ("ERR unknown command '" ++ c ++ "' (not in the C18 model)"))
   end.
